@@ -10,7 +10,9 @@ MANIFEST = dict(
          "The records, enc_T / dec_T, the message sum and the dispatch table are REGENERATED from vls-protocol/src/msgs.rs "
          "and model.rs by tools/gen_wire.py on every run and re-proved (per-struct round trip by one tactic over "
          "once-proved combinators; table completeness; C19_ids_unique = NoDup of the type ids by computation over the "
-         "generated table). C19_psbt_sound / C19_psbt_accepts: the StreamedPSBT decoder, when it accepts, yields the "
+         "generated table). C19_wf_from_size / C19_registry_sized: the array-count and blob-size parts of well-formedness "
+         "follow from the encoding fitting MAX_MESSAGE_SIZE (one generated obligation per array field, max < min_size(elem) * "
+         "2^16, by computation; only Array<WireString> keeps its count bound as a hypothesis). C19_psbt_sound / C19_psbt_accepts: the StreamedPSBT decoder, when it accepts, yields the "
          "encoded transaction, the previous outputs the encoded PSBT designates and the reference segwit flags, and it "
          "accepts exactly the consistent PSBTs. The combinators, the dispatch and the PSBT post-processing are compared with "
          "the real as_vec / msgs::from_vec on generated values of all registry types (boundary-driven), on malformed byte "
@@ -25,7 +27,7 @@ MANIFEST = dict(
               "with the Rust implementation",
 )
 
-PINNED = ["C19_ids_unique", "C19_struct_codecs", "C19_registry", "C19_psbt_sound", "C19_psbt_accepts",
+PINNED = ["C19_ids_unique", "C19_struct_codecs", "C19_registry", "C19_wf_from_size", "C19_registry_sized", "C19_psbt_sound", "C19_psbt_accepts",
           "C19_streamed_field", "C19_nonvacuous", "C19_psbt_nonvacuous", "C19_duplicate_id_misroutes",
           "C19_old_id20_refuted"]
 
@@ -69,9 +71,9 @@ def run(res):
         "rust-bitcoin / txoo encodings of Transaction, PSBT, TxoProof (premise blob_laws)"]
 
     # 3. correspondence + monitors on the real code
-    n_rand = 2 if quick else 12
-    n_mal = 60 if quick else 600
-    n_psbt = 150 if quick else 2500
+    n_rand = 2 if quick else 40
+    n_mal = 60 if quick else 2000
+    n_psbt = 150 if quick else 6000
     msgs = lib.run_harness("wire", "msgs", res.seed, n_rand, res.tier)
     mal = lib.run_harness("wire", "malformed", res.seed, n_mal, res.tier)
     psbt = lib.run_harness("wire", "psbt", res.seed, n_psbt, res.tier)
